@@ -30,8 +30,8 @@ func profiles() map[string]world.Profile {
 	parents := map[string]int{"AddFact": 18, "RemFact": 5, "AddRule": 14, "RemRule": 5, "SetParents": 10, "GetParents": 4,
 		"SearchFacts": 14, "ProcessEvent": 14, "ListRules": 5, "SearchRules": 5, "EnableRule": 5, "GetFact": 4}
 	lifecycle := map[string]int{"AddRule": 22, "RemRule": 8, "EnableRule": 14, "ProcessEvent": 30, "Reload": 6,
-		"SetKey": 3, "AddFact": 4, "RemFact": 3, "SetParents": 3, "GetRule": 3, "ListRules": 3}
-	dispatch := map[string]int{"AddFact": 22, "RemFact": 6, "AddRule": 18, "RemRule": 5, "ProcessEvent": 40, "EnableRule": 4, "SetParents": 3}
+		"SetKey": 4, "AddFact": 4, "RemFact": 3, "SetParents": 8, "GetRule": 3, "ListRules": 3}
+	dispatch := map[string]int{"AddFact": 22, "RemFact": 6, "AddRule": 18, "RemRule": 5, "ProcessEvent": 40, "EnableRule": 4, "SetParents": 8}
 	index := map[string]int{"AddRule": 30, "RemRule": 14, "AddFact": 5, "RemFact": 3, "EnableRule": 4, "Clear": 3,
 		"ProcessEvent": 45, "SearchRules": 5, "Reload": 2}
 	system := map[string]int{"CreateLocation": 6, "AddFact": 20, "RemFact": 8, "GetFact": 8, "SearchFacts": 12, "AddRule": 12,
@@ -48,11 +48,11 @@ func profiles() map[string]world.Profile {
 		"cascade":      {Name: "cascade", Len: 40, Locs: []string{"A"}, Ids: []string{"f1", "f2", "f3", "f4"}, MaxFacts: 1000, Weights: cascade, Cascade: true},
 		"rules":        {Name: "rules", Len: 40, Locs: []string{"A"}, Ids: []string{"r1", "r2", "f1"}, Rules: true, MaxFacts: 1000, Weights: rules},
 		"expiry":       {Name: "expiry", Len: 30, Locs: []string{"A"}, Ids: ids, Rules: true, Expiry: true, Cascade: true, MaxFacts: 1000, Weights: expiry},
-		"guards":       {Name: "guards", Len: 50, Locs: []string{"A"}, Ids: ids, Rules: true, Keys: true, SideEffects: true, MaxFacts: 1000, Weights: guards},
+		"guards":       {Name: "guards", Len: 50, Locs: []string{"A", "B"}, Ids: ids, Rules: true, Keys: true, Parents: true, SideEffects: true, MaxFacts: 1000, Weights: guards},
 		"capacity":     {Name: "capacity", Len: 40, Locs: []string{"A"}, Ids: []string{"f1", "f2", "f3", "f4", "f5"}, Rules: true, MaxFacts: 3, Weights: capacity},
-		"lifecycle":    {Name: "lifecycle", Len: 45, Locs: []string{"A", "B"}, Ids: []string{"r1", "r2"}, Rules: true, Parents: true, MaxFacts: 1000, Weights: lifecycle},
+		"lifecycle":    {Name: "lifecycle", Len: 45, Locs: []string{"A", "B"}, Ids: []string{"r1", "r2"}, Rules: true, Parents: true, Scheduled: true, MaxFacts: 1000, Weights: lifecycle},
 		"dispatch":     {Name: "dispatch", Len: 40, Locs: []string{"A", "B"}, Ids: []string{"r1", "r2", "r3", "f1", "f2"}, Rules: true, Dispatch: true, Parents: true, MaxFacts: 1000, Weights: dispatch},
-		"index":        {Name: "index", Len: 50, Locs: []string{"A"}, Ids: []string{"r1", "r2", "r3", "r4"}, Rules: true, Index: true, MaxFacts: 1000, Weights: index},
+		"index":        {Name: "index", Len: 50, Locs: []string{"A"}, Ids: []string{"r1", "r2", "r3", "r4"}, Rules: true, Index: true, Scheduled: true, MaxFacts: 1000, Weights: index},
 		"system":       {Name: "system", Len: 50, Locs: []string{"A", "B", "C"}, Ids: []string{"f1", "f2", "r1", "r2"}, Rules: true, Parents: true, Cascade: true, MaxFacts: 1000, Weights: system},
 		"service":      {Name: "service", Len: 50, Locs: []string{"A", "B"}, Ids: []string{"f1", "r 1", "a\"b", "x&y=z", "%25+\u00fc"}, Rules: true, Parents: true, MaxFacts: 1000, Weights: svc},
 		"expiry-rules": {Name: "expiry-rules", Len: 36, Locs: []string{"A"}, Ids: []string{"r1", "r2", "r3"}, Rules: true, Index: true, Expiry: true, MaxFacts: 1000, Weights: expiryRules},
